@@ -341,4 +341,53 @@ def run(ctx):
             for s in subs:
                 if bad or s[2] + 256 * s[3] != app:
                     _mk(res, "SDK app id altered", {"app": app, "bytes": list(s[:4])})
+    # The rejection must not depend on the interpreter's mode: with `python -O` assert statements
+    # are compiled away, so a range check written as an assertion silently disappears.
+    import subprocess
+    import sys as _sys
+    from vlib import common as _common
+    code = r"""
+import sys, json
+sys.path.insert(0, %r)
+from netqasm.lang.parsing.text import parse_text_subroutine
+from netqasm.lang.parsing.binary import deserialize
+from netqasm.lang.instr.flavour import NVFlavour
+from netqasm.lang.subroutine import Subroutine
+out = []
+for t in ["set R16 5", "set R1 2147483648", "rot_x Q0 300 4", "store R0 @4294967296[R1]", "jmp -2147483649",
+          "meas_basis Q0 M0 256 1 1 1", "set R1 -5"]:
+    try:
+        s = parse_text_subroutine("# NETQASM 1.0\n# APPID 0\n" + t, flavour=NVFlavour())
+        b = bytes(s)
+        back = [str(i) for i in deserialize(b, flavour=NVFlavour()).instructions]
+        out.append([t, "encoded", back])
+    except Exception as e:
+        out.append([t, "raised", type(e).__name__])
+for app in [65536, 70000, -1]:
+    try:
+        out.append(["app %%d" %% app, "encoded", list(bytes(Subroutine(instructions=[], app_id=app)))])
+    except Exception as e:
+        out.append(["app %%d" %% app, "raised", type(e).__name__])
+print(json.dumps(out))
+""" % (_common.REPO,)
+    for flag in ([], ["-O"], ["-OO"]):
+        try:
+            p = subprocess.run([_sys.executable] + flag + ["-c", code], capture_output=True, text=True, timeout=120)
+            rows = json.loads(p.stdout.strip().split("\n")[-1])
+        except Exception as exc:  # the probe itself could not run
+            res.disagreements.append({"stream": "reject.optimised-interpreter", "input": {"flag": flag},
+                                      "model": "runs", "code": f"probe failed: {exc}"})
+            continue
+        for (t, what, detail) in rows:
+            res.evaluations += 1
+            res.count("interp" + ("".join(flag) or "-default"))
+            legal = t == "set R1 -5"
+            if legal:
+                if what != "encoded" or detail != ["set R1 -5"]:
+                    res.failures.append({"what": "an in-range program is not encoded faithfully", "kf": None,
+                                         "input": {"python_flags": flag, "text": t, "result": [what, detail]}})
+            elif what != "raised":
+                res.failures.append({"what": "an unrepresentable operand is encoded instead of rejected "
+                                             "(interpreter mode %s)" % ("".join(flag) or "default"), "kf": None,
+                                     "input": {"python_flags": flag, "text": t, "decodes_as": detail}})
     return res
